@@ -173,6 +173,12 @@ def extract(tree):
     if not m:
         raise ExtractError("janet_continue_no_check: JOP_NEXT fix-up shape changed")
     next_nil_vm = sorted(sig[x] for x in re.findall(r"JANET_SIGNAL_\w+", m.group(1)))
+    if re.search(r"uint32_t instr = [^;]*;\s*janet_fiber_set_status\(fiber, JANET_STATUS_ALIVE\);\s*janet_vm\.stackn\+\+;\s*JanetSignal sig = janet_continue\(child, in, &in\);", cnc):
+        chain_alive = True
+    elif re.search(r"uint32_t instr = [^;]*;\s*janet_vm\.stackn\+\+;\s*JanetSignal sig = janet_continue\(child, in, &in\);", cnc):
+        chain_alive = False
+    else:
+        raise ExtractError("janet_continue_no_check: child branch shape changed")
     if not re.search(r"\}\s*fiber->child = NULL;\s*\}", cnc):
         raise ExtractError("janet_continue_no_check: child not cleared after delivery")
     if not re.search(r"janet_fiber_set_status\(fiber, JANET_STATUS_ALIVE\);\s*sig = run_vm\(fiber, in\);", cnc) or \
@@ -227,7 +233,7 @@ def extract(tree):
     user_max, user_base = int(m.group(1)), sig[m.group(2)]
     return dict(sig=sig, stat=stat, signames=signames, statnames=statnames, env=env, usern=usern, default_mask=default_mask,
                 letters=letters, envmodes=envmodes, refuse=refuse, cancel_sig=cancel_sig, prop_max=prop_max, next_nil=next_nil,
-                next_skip=next_skip, user_max=user_max, user_base=user_base, walk_guarded=walk_guarded, stale_cleared=stale_cleared)
+                next_skip=next_skip, user_max=user_max, user_base=user_base, walk_guarded=walk_guarded, stale_cleared=stale_cleared, chain_alive=chain_alive)
 
 
 def render(tree):
@@ -273,5 +279,7 @@ def render(tree):
     o.append("abbrev cancelWalkGuarded : Bool := %s" % ("true" if x["walk_guarded"] else "false"))
     o.append("/-- janet_continue_no_check drops `fiber->child` when that child refused because it is alive -/")
     o.append("abbrev staleChildCleared : Bool := %s" % ("true" if x["stale_cleared"] else "false"))
+    o.append("/-- janet_continue_no_check marks a fiber alive before continuing its child (pass-through activation) -/")
+    o.append("abbrev chainAliveMarked : Bool := %s" % ("true" if x["chain_alive"] else "false"))
     o.append("\nend JanetModel.Gen.Fiber\n")
     return "\n".join(o)
